@@ -340,7 +340,7 @@ def gen_cases(ctx):
     rng = ctx.rng
     cases = []
     shp = shapes(ctx)
-    rep = 20 if ctx.thorough else 5
+    rep = 60 if ctx.thorough else 5
     for r in range(rep):
         for i, s in enumerate(shp):
             lam, dx, z = optics(rng)
@@ -363,7 +363,7 @@ def gen_cases(ctx):
                                          'prop_method': T_METHODS[(i + r) % 3], 'ptype': ['back and forth', 'forward'][(i + r) % 2]}))
     # multi-colour: >= 32 px per side
     mres = [(33, 36), (32, 32), (36, 33)] + ([(40, 35), (47, 33)] if ctx.thorough else [])
-    nmc = 96 if ctx.thorough else 24
+    nmc = 240 if ctx.thorough else 24
     for i in range(nmc):
         lam = rng.uniform(0.4, 0.5)
         C = [3, 1, 2][i % 3]
